@@ -145,7 +145,10 @@ def d_reverse(t):
 
 def d_hydrogens(t):
     k = len(t)
-    src = [a for a in t if a["chain"] == "A" and a["resseq"] == 2 and a["name"] == "C5'"][0]
+    src = [a for a in t if a["chain"] == "A" and a["resseq"] == 2 and a["name"] == "C5'"]
+    if not src:
+        return False  # an earlier deviation renamed the chain / renumbered the residue: combination not applicable
+    src = src[0]
     idx = t.index(src)
     for n, nm in enumerate(("H5'", "H5''", "HO2'")):
         b = dict(src)
